@@ -25,16 +25,18 @@ ASSUMPTIONS = [
     "fresh objects = a new pipeline from the same dict, a new backend instance of a new class object built from the same configuration, caches cleared",
     "observation through a finalize_query hook defined in the harness's backend subclass (state seen by the conversion) and a template post-processing item (state seen by the item)",
 ]
-OPS = ["load", "conv_coll_state", "conv_coll_plain", "conv_rule_state", "conv_rule_plain", "init", "share_init", "share_conv", "other_backend",
+OPS = ["load", "conv_coll_state", "conv_coll_plain", "conv_rule_state", "conv_rule_plain", "init", "share_init", "share_conv", "other_backend", "backend_option",
        "fail_pipeline", "fail_placeholder", "fail_value", "fail_missing", "fail_noteq"]
 
 PIPE = {"name": "user", "priority": 10, "transformations": [
     {"id": "st", "type": "set_state", "key": "k", "val": "KV", "rule_conditions": [{"type": "logsource", "category": "withstate"}]},
     {"id": "map", "type": "field_name_mapping", "mapping": {"fieldA": "mappedA"}},
+    # values read from a file, filtered: every rule gets the filtered values (the item caches what it read)
+    {"id": "ext", "type": "file_placeholders", "path": "@USERS@", "filter": "^adm_", "include": ["users"]},
     {"id": "boom", "type": "rule_failure", "message": "x", "rule_conditions": [{"type": "logsource", "category": "fail"}]},
     {"id": "after", "type": "field_name_suffix", "suffix": "_S", "rule_conditions": [{"type": "processing_state", "key": "k", "val": "KV"}],
      "field_name_conditions": [{"type": "include_fields", "fields": ["g"]}]},
-], "postprocessing": [{"id": "pp", "type": "template", "template": "{{ query }} /post:k={{ pipeline.state.get('k') }},bk={{ pipeline.state.get('bk') }},applied={{ pipeline.applied_ids|sort|join('+') }}"},
+], "postprocessing": [{"id": "pp", "type": "template", "template": "{{ query }} /post:k={{ pipeline.state.get('k') }},bk={{ pipeline.state.get('bk') }},applied={{ pipeline.applied_ids|sort|join('+') }},vars={{ pipeline.vars|dictsort|join('+') }}"},
                       # items that keep parsed templates / compiled data on the item object: every rule must get its own query embedded
                       {"id": "js", "type": "json", "json_template": "{\"q\": \"%QUERY%\", \"nested\": [{\"again\": \"%QUERY%\"}], \"n\": 1}"},
                       {"id": "em", "type": "embed", "prefix": "<<", "suffix": ">>"}]}
@@ -43,7 +45,7 @@ BACKEND_PIPE = {"name": "backend", "priority": 1, "transformations": [{"id": "bs
 
 def rule_doc(kind, i=0):
     cat = {"state": "withstate", "pipefail": "fail"}.get(kind, "c")
-    d = {"title": f"{kind}{i}", "logsource": {"category": cat}, "detection": {"sel": {"fieldA": f"v{i}", "g": 1}, "flt": {"h": f"x{i}"}, "condition": "sel and not flt"}}
+    d = {"title": f"{kind}{i}", "logsource": {"category": cat}, "detection": {"sel": {"fieldA": f"v{i}", "g": 1, "u|expand": "%users%"}, "flt": {"h": f"x{i}"}, "condition": "sel and not flt"}}
     if kind == "casedprobe": d["detection"] = {"sel": {"fieldA|cased|contains": f"Ab{i}", "fieldB|cased|startswith": "Cd", "fieldC|cased|endswith": "Ef", "g": 1,
                                                        "fieldD|contains": f"mid{i}", "fieldE|startswith": "head", "fieldF|endswith": "tail", "fieldG|re": "x+y", "fieldH": None},
                                                "flt": {"h": f"x{i}"}, "condition": "sel and not flt"}
@@ -92,7 +94,22 @@ def run_history(case, fresh):
     from sigma.conditions import _parse_condition_string
     _parse_condition_string.cache_clear()      # every run starts like a new process: what is cached comes from this history only
     cls = make_class("all" if case["probe_kind"] == "casedprobe" else "none")
-    P = ProcessingPipeline.from_dict(copy.deepcopy(PIPE))
+    import os
+    from .common import WORK
+    users = os.path.join(WORK, f"c15_users_{os.getpid()}.txt")
+    with open(users, "w") as f:
+        f.write("adm_alice\nbob\nadm_carol\nguest\n")
+
+    def pipe_dict():
+        d = copy.deepcopy(PIPE)
+        for t in d["transformations"]:
+            if t.get("path") == "@USERS@":
+                t["path"] = users
+        return d
+
+    def new_pipe():
+        return ProcessingPipeline.from_dict(pipe_dict(), allow_external_sources=True)
+    P = new_pipe()
     A = cls(P, collect_errors=False)
     n = [0]
 
@@ -110,7 +127,8 @@ def run_history(case, fresh):
                 elif op == "init": A.init_processing_pipeline()
                 elif op == "share_init": cls(P).init_processing_pipeline()
                 elif op == "share_conv": cls(P).convert(coll("state"))
-                elif op == "other_backend": cls(ProcessingPipeline.from_dict(copy.deepcopy(PIPE))).convert(coll("state"))
+                elif op == "other_backend": cls(new_pipe()).convert(coll("state"))
+                elif op == "backend_option": cls(new_pipe(), index="winlogs", tenant="t1").convert(coll("plain"))     # backend options become pipeline variables
                 elif op.startswith("fail_"):
                     kind = {"fail_pipeline": "pipefail", "fail_placeholder": "placeholder", "fail_value": "badvalue", "fail_missing": "missing", "fail_noteq": "noteq"}[op]
                     A.convert(coll("plain", kind, "state"))
@@ -151,7 +169,7 @@ def sys_ops(case):
                 ops.append(["add", 0, 1]); a_last = npipes; npipes += 1
         elif op in ("share_init", "share_conv"):
             ops.append(["add", 0, 1]); npipes += 1
-        elif op == "other_backend":
+        elif op in ("other_backend", "backend_option"):
             ops.append(["define", [11, 12, 13, 14, 15]]); other = npipes; npipes += 1
             ops.append(["add", 0, other]); npipes += 1
     if case["probe"] == "convert" or a_last is None:
